@@ -205,7 +205,7 @@ def _make_original(case, scratch):
     if tree["single"]:
         materialise(base, [[tree["name"], tree["files"][0][1], tree["files"][0][2]]])
     else:
-        materialise(root, tree["files"], tree["dirs"])
+        materialise(root, tree["files"], tree["dirs"], tree.get("links", ()))
     mpath = os.path.join(scratch, "meta", "m.torrent")
     os.makedirs(os.path.dirname(mpath), exist_ok=True)
     if case.get("preexisting_output"):
